@@ -7,61 +7,81 @@ P = {
     "claimed": True,
     "coq_targets": ["Properties/C02.vo", "Run/Eval_C02.vo"],
     "theorems_module": "Properties.C02",
-    "theorems": ["C02_find_is_most_specific", "C02_tree_refines_machine", "C02_tree_add_refines_machine",
-                 "C02_tree_find_is_most_specific",
-                 "C02_pinned_find_is_most_specific", "C02_pinned_tree_find_is_most_specific", "C02_F1_pinned_refuted",
-                 "C02_nonvacuous", "C02_order_independent", "C02_answer_is_first_acceptable", "C02_most_specific_wins",
-                 "C02_no_backtracking_stops", "C02_backtracking_continues", "C02_match_decides_matches",
-                 "C02_parsed_expressions_wellformed", "C02_wildcards_nonempty", "C02_escapes_are_literals",
-                 "C02_repository_find_rule", "C02_default_or_norule"],
+    "theorems": ["C02_find_is_most_specific", "C02_find_is_most_specific_with_last_flag", "C02_flag_in_force_is_last_add",
+                 "C02_F2_refuted", "C02_F3_refuted", "C02_tree_refines_machine", "C02_tree_add_refines_machine", "C02_repository_find_rule",
+                 "C02_ties_never_decide", "C02_nonvacuous", "C02_order_independent", "C02_rulesets_order_independent",
+                 "C02_answer_is_first_acceptable",
+                 "C02_match_decides_matches", "C02_parsed_expressions_wellformed", "C02_wildcards_nonempty",
+                 "C02_escapes_are_literals"],
     "streams": [{
         "name": "tree", "pkg": "./internal/x/radixtree", "test": "TestVerifC02Tree",
         "overlay": dict({"internal/x/radixtree/zz_verif_c02_test.go": "c02/c02_tree_test.go"}, **_OVERLAY_GEN),
         "eval_module": "Run.Eval_C02", "check_term": "check_tree true",
-        "n_quick": 600, "n_thorough": 15000, "shard": 60, "findings": {2: "C02-F2"},
+        "n_quick": 500, "n_thorough": 12000, "shard": 60, "findings": {2: "C02-F2"},
     }, {
         "name": "repo", "pkg": "./internal/rules", "test": "TestVerifC02Repo",
         "overlay": dict({"internal/rules/zz_verif_c02_test.go": "c02/c02_repo_test.go"}, **_OVERLAY_GEN),
         "eval_module": "Run.Eval_C02", "check_term": "check_repo true",
-        "n_quick": 400, "n_thorough": 10000, "shard": 60, "findings": {2: "C02-F2"},
+        "n_quick": 300, "n_thorough": 8000, "shard": 60, "findings": {2: "C02-F2"},
+    }, {
+        "name": "processor", "pkg": "./internal/rules", "test": "TestVerifC02Processor",
+        "overlay": dict({"internal/rules/zz_verif_c02_test.go": "c02/c02_repo_test.go"}, **_OVERLAY_GEN),
+        "eval_module": "Run.Eval_C02", "check_term": "check_repo true",
+        "n_quick": 200, "n_thorough": 5000, "shard": 60, "findings": {2: "C02-F2"},
+    }, {
+        "name": "history", "pkg": "./internal/rules", "test": "TestVerifC02History",
+        "overlay": dict({"internal/rules/zz_verif_c02_test.go": "c02/c02_repo_test.go"}, **_OVERLAY_GEN),
+        "eval_module": "Run.Eval_C02", "check_term": "check_hist",
+        "n_quick": 250, "n_thorough": 6000, "shard": 60, "findings": {2: "C02-F2", 3: "C02-F3"},
     }],
-    "rule": "a case = one fresh index (stream tree: 1-12 Adds on a real radixtree.Tree with the repository's values constraint "
-            "and a WithBacktracking option per Add; stream repo: 1-5 rule sets of real ruleImpl/routeImpl values with real "
-            "method matchers loaded by AddRuleSet into a real repository, with/without default rule) + 8-24 lookups. "
-            "Expressions over the alphabet a b % : * \\ / (static, :name, :*, *name, **, escaped, empty segments, trailing "
-            "slash, malformed), 68% derived from an earlier expression of the same case (same expression again, other key "
-            "names, prefix, split inside a token, segment kind swapped, continued differently); random order, flags, "
-            "rule-set ids; lookups = instances of loaded expressions (58%), near misses of instances (30%), random paths; "
-            "conditions as data (random subset of acceptable ids; in the repo stream method sets through the real matcher). "
-            "Non-trivial = some lookup of the case has >= 2 loaded expressions matching its path; distinct by hash of the input.",
+    "rule": "a case = one fresh index + 8-24 lookups. Stream tree: 1-12 Adds on a real radixtree.Tree (repository's values constraint, "
+            "WithBacktracking per Add). Stream repo: 1-5 rule sets of real ruleImpl/routeImpl values (real method matcher + table-driven "
+            "capture-aware condition, rule ids = shuffled strings) via AddRuleSet, with/without default rule, plus a twin load in reverse "
+            "order. Stream processor: the same written as configuration (backtracking_enabled set/unset x default rule, scheme/host/method) "
+            "through the real NewRuleSetProcessor -> NewRuleFactory.CreateRule -> repository. Stream history: 2-7 OnCreated/OnUpdated/"
+            "OnDeleted operations (definition-only changes, flag flips, reorderings, dropped/new rules, new routes; siblings on one "
+            "expression inside a set) then lookups, judged against a FRESH load of the rule sets in force. Expressions over a b A B 1 2 "
+            ". - ; ~ % : * \\ / and a non-ASCII byte (static up to 16 bytes, :name, :*, *name, **, escaped, empty segments, trailing slash, "
+            "malformed; up to 7 segments), 68% derived from an earlier expression of the case (same again, other key names, prefix, split "
+            "inside a token, generalise/specialise one segment, free wildcard below a prefix, directory/child form); lookups = instances "
+            "(wildcards filled with sibling segments), near misses (incl. case flip, ';'), random paths; conditions as data: acceptable "
+            "ids (incl. 'only one or two acceptable' to force long failure chains) and per-id tests on the key names / captured values. "
+            "Non-trivial = some lookup has >= 2 loaded expressions matching its path (history: an accepted update changing an existing "
+            "rule); distinct by hash of the input.",
     "anchors": ["internal/x/radixtree/tree.go", "internal/x/radixtree/options.go", "internal/rules/repository_impl.go",
-                "internal/rules/rule_impl.go", "internal/rules/route_matcher.go"],
+                "internal/rules/rule_impl.go", "internal/rules/route_matcher.go", "internal/rules/rule_factory_impl.go",
+                "internal/rules/ruleset_processor_impl.go"],
     "trusted": [
-        "the Gallina transcription of tree.go (Radix/Tree.v: addNode, splitCommonPrefix, Add, findNode, Find) is tied to the Go code by "
-        "the correspondence runs only; static-child priorities (order of children) are omitted; Delete/deleteChild and Clone are not "
-        "modelled here (C06/C07)",
-        "a failed real Add leaves value-less nodes behind (and may overwrite key names before the constraint refuses); the model returns "
-        "the tree unchanged - invisible to lookups by id for constraints that never refuse a value on an empty node (heimdall's does not)",
-        "conditions are data in the runs (matchers that do not look at key names/captures: scheme, method, host); the theorems hold for "
-        "all matchers; path_params conditions and the captures handed out are C03's observables and are not compared here",
-        "every Add carries WithBacktracking (as repository.addRulesTo does); an expression's flag is that of its last accepted Add",
+        "the Gallina transcription of tree.go (Radix/Tree.v: addNode, splitCommonPrefix, Add, findNode, Find) and of the repository "
+        "(C02/Model.v) is tied to the Go code by the correspondence runs only; static-child priorities (order of children) are omitted; "
+        "delNode/deleteChild and Clone are not transcribed: update/delete histories are modelled at the level of the pattern-map machine "
+        "(C02/Model.v hstep) and compared differentially, without a theorem (the general statement about histories is C06's)",
+        "which Adds / rule sets are accepted is not part of the property: the index content is built from what the implementation accepted; "
+        "a failed real Add leaves value-less nodes behind, invisible to lookups",
+        "the flag of an expression 'as the property states it' is the conjunction of its rules' flags (regular_rule.adoc: 'a less specific "
+        "rule fails to match and does not permit backtracking' stops the search); this reading is the spec's, finding C02-F2 depends on it",
+        "conditions are data (acceptable ids + tests on key names / captured values); real matchers on the path: method (repo, processor, "
+        "history), scheme and exact host (processor); path_params / glob / regex conditions and URL.Captures are C03's",
+        "every Add carries WithBacktracking (as repository.addRulesTo does)",
     ],
-    "level_text": "Proof (kernel-checked, no axioms), both stages of DESIGN 6/C02: for every sequence of Adds (any expressions, insertion "
-                  "order, flags, values constraint), every path and every condition (captures included) the transcribed compressed radix tree "
-                  "of tree.go (addNode with prefix splitting, findNode with static/wildcard/catch-all children and backtrack flags) returns "
-                  "exactly what the declarative specification says: scan of the matching expressions by specificity (literal < single wildcard "
-                  "< free wildcard, position by position), first acceptable value in insertion order, continue only if the failed expression "
-                  "allows backtracking (C02_tree_find_is_most_specific, via the pattern-map machine: Add refines the machine's add, findNode "
-                  "refines its search on every well-formed tree); lookups are independent of how Adds of different expressions are interleaved; "
-                  "wildcards are non-empty, escapes are literals; default rule / no rule at repository level. The pinned behaviour C02-F1 "
-                  "(fixed by e897fef) is kept as guarded theorem + refutation witness. The model is tied to radixtree.Tree and rules.repository "
-                  "by running both on ~1000 generated indexes / ~16000 lookups per quick run (25000 / 400000 thorough) and comparing every Add "
-                  "result and every returned value / rule id with the tree model, the machine and the specification.",
-    "level_note": "Trusted: Coq kernel/vm_compute; the hand transcription of tree.go and repository_impl.go into Gallina (checked differentially "
-                  "on every run, not verified); the Go drivers and generators (harness/c02) and the rendering into Gallina. Not modelled: "
-                  "static-child priorities (order only), Delete/Clone (C06/C07), garbage nodes of failed Adds. Conditions are data in the runs "
-                  "(capture-independent matchers); captures/keys are C03's observables. Finding C02-F1 was repaired by fix: commit e897fef; "
-                  "its witness stays in the corpus, so a regression is an ordinary VIOLATION (checked by reverting the commit in a scratch worktree).",
+    "level_text": "Proof (kernel-checked, no axioms): for every sequence of Adds (any expressions, insertion order, flags, values constraint), "
+                  "every path and every condition (captures included) the transcribed compressed radix tree of tree.go (addNode with prefix "
+                  "splitting, findNode with static/wildcard/catch-all children and backtrack flags) returns exactly what the declarative "
+                  "specification says - scan of the matching expressions by specificity (literal < single wildcard < free wildcard at the first "
+                  "differing position; the tie-breaks of the order provably never decide), first acceptable value in insertion order, continue "
+                  "only if the failed expression allows backtracking - with the flag of the last Add (unguarded) and, outside open finding "
+                  "C02-F2, with the flag the property states (all rules of the failed expression allow it); repository level incl. default rule / "
+                  "no rule; independence of how Adds of different expressions are interleaved and of the order of completely accepted rule sets; "
+                  "wildcards non-empty, escapes literal. The model is tied to radixtree.Tree, rules.repository, NewRuleFactory and "
+                  "NewRuleSetProcessor by four differential streams (~1270 cases / ~19000 lookups per quick run) comparing every returned value / "
+                  "rule id with the tree model, the machine and the specification; update/delete histories are compared with a machine-level "
+                  "history model and judged against a fresh load (open finding C02-F3), without a theorem.",
+    "level_note": "Trusted: Coq kernel/vm_compute; the hand transcription of tree.go / repository_impl.go into Gallina (checked differentially "
+                  "on every run, not verified); the Go drivers and generators (harness/c02) and the rendering into Gallina. Not covered by a "
+                  "theorem: states reached by UpdateRuleSet/DeleteRuleSet (delNode/deleteChild not transcribed; C06), static-child priorities "
+                  "(order only), Clone. Open findings: C02-F2 (flag of the last Add in force; = C06-F2) and C02-F3 (rule order after an update; "
+                  "= C06-F1), both guarded by input, both with a refutation witness, both observed on every run. C02-F1 was repaired by e897fef; "
+                  "its witness stays in the corpus. URL.Captures / path_params are C03's observables.",
     "assumptions": ["lookups never mutate the tree; the drivers use one goroutine",
                     "the repository driver builds ruleImpl/routeImpl values directly (in-package); a rename of their fields breaks the driver, not the property"],
 }
